@@ -19,6 +19,7 @@ import (
 	"io"
 	"path"
 	"sort"
+	"strconv"
 	"strings"
 	"time"
 
@@ -38,6 +39,20 @@ type Replay struct {
 	Pat    string `json:"pat,omitempty"`
 	Name   string `json:"name,omitempty"`
 	Stream string `json:"stream,omitempty"`
+	// query variants
+	Range []int64 `json:"range,omitempty"` // [lo, hi]: SELECT ... RANGE ["lo":"hi"] WHERE e (the filter iterator with an explicit time range)
+	Tail  int     `json:"tail,omitempty"`  // > 0: SELECT ... WHERE e POSITION tail OFFSET -k (k = min(Tail, matching events)): backward through the filter iterator
+	Via   string  `json:"via,omitempty"`   // "rpc": the events are written through the RPC client, their fields as the text name=value,... (field.NewFieldsFromKVString)
+	// reltime: clock-dependent ts literals (relative "-1.5h", constants minute/hour/day/week); the events are placed at run time
+	RelLits []string `json:"rellits,omitempty"`
+	RelEvs  []RelEv  `json:"relevs,omitempty"`
+}
+
+// RelEv: an event dated Off nanoseconds after the instant the literal RelLits[Lit] denotes when the case runs
+type RelEv struct {
+	Lit int    `json:"lit"`
+	Off int64  `json:"off"`
+	Msg string `json:"msg"`
 }
 
 const rule = "an expression case is non-trivial iff it parses, builds and contains at least two connectives of different kinds (AND/OR/NOT/parentheses) or a function nesting; lex/match/query cases are non-trivial iff the text has at least 3 tokens / the pattern has a metacharacter / the query returned a proper non-empty subset; distinct by the hash of the input"
@@ -104,10 +119,151 @@ func timeTable(e *lql.Expression) (tab string, stable bool) {
 	return GList(it), stable
 }
 
+// the table of a case whose clock-dependent literals were sampled by the harness
+func timeTableFixed(e *lql.Expression, fixed map[string]int64) (string, bool) {
+	vals := map[string]bool{}
+	tsValues(e, vals)
+	keys := make([]string, 0, len(vals))
+	for k := range vals {
+		keys = append(keys, k)
+	}
+	sort.Strings(keys)
+	var it []string
+	for _, k := range keys {
+		if v, ok := fixed[k]; ok {
+			it = append(it, GPair(GStr(k), GSome(GZ(v))))
+			continue
+		}
+		t1, ok1 := parseTime(k)
+		t2, ok2 := parseTime(k)
+		if ok1 != ok2 || t1 != t2 {
+			return "", false
+		}
+		if ok1 {
+			it = append(it, GPair(GStr(k), GSome(GZ(t1))))
+		} else {
+			it = append(it, GPair(GStr(k), GNone))
+		}
+	}
+	return GList(it), true
+}
+
 // ---------------------------------------------------------------- where
 
-func whereCase(rp Replay) (*Case, error) {
+func whereCase(rp Replay) (*Case, error) { return whereCaseT(rp, nil) }
+
+// relCase: ts literals that depend on the clock. The literals are sampled before and after the case; the events are
+// dated relative to the sampled instants, at least a minute away from them, so that the truth of every condition does
+// not depend on the few milliseconds between the samples and the builder's own reading of the clock. If a boundary
+// (start of a minute/hour/day/week) passed in between, the case is dropped.
+func relCase(rp Replay) (*Case, error) {
+	sample := func() (map[string]int64, bool) {
+		m := map[string]int64{}
+		for _, l := range rp.RelLits {
+			v, ok := parseTime(l)
+			if !ok {
+				return nil, false
+			}
+			m[l] = v
+		}
+		return m, true
+	}
+	now0 := time.Now()
+	t0, ok := sample()
+	if !ok {
+		return nil, fmt.Errorf("reltime: a literal of %q does not parse", rp.RelLits)
+	}
+	// the documented meaning of the literal, computed here (not by the implementation): the events are dated relative
+	// to it and K gets it as the value of the literal; the implementation's own reading must agree within seconds
+	var litViol *Violation
+	for _, l := range rp.RelLits {
+		want, ok := refClockLiteral(l, now0)
+		if !ok {
+			return nil, fmt.Errorf("reltime: no reference meaning for the literal %q", l)
+		}
+		if d := t0[l] - want; d < -int64(5*time.Second) || d > int64(5*time.Second) {
+			if want2, _ := refClockLiteral(l, time.Now()); want2-want >= 0 && want2-want < int64(5*time.Second) { // no boundary passed meanwhile
+				litViol = &Violation{Class: "ts-literal-value-differs", Detail: fmt.Sprintf("the literal %q read at %s denotes %s, parseLqlDateTime says %s", l, now0.UTC().Format(time.RFC3339), time.Unix(0, want).UTC().Format(time.RFC3339Nano), time.Unix(0, t0[l]).UTC().Format(time.RFC3339Nano))}
+			} else {
+				return nil, nil
+			}
+		}
+		t0[l] = want
+	}
+	rp2 := rp
+	rp2.Events = nil
+	for _, re := range rp.RelEvs {
+		rp2.Events = append(rp2.Events, Ev{Ts: t0[rp.RelLits[re.Lit]] + re.Off, Msg: re.Msg})
+	}
+	cs, err := whereCaseT(rp2, t0)
+	if err != nil || cs == nil {
+		return cs, err
+	}
+	now1 := time.Now()
+	for l, v := range t0 {
+		w1, _ := refClockLiteral(l, now1)
+		if d := w1 - v; d < 0 || d > int64(5*time.Second) {
+			return nil, nil // a boundary passed (or the clock jumped) while the case ran
+		}
+	}
+	if litViol != nil {
+		cs.Oracle = litViol
+	}
+	cs.Replay = rp // replayable: the events are placed again when it runs
+	cs.Key = "reltime:" + rp.Text + fmt.Sprint(rp.RelEvs)
+	cs.NonTrivial = strings.Contains(cs.Coq, "WTrue") && strings.Contains(cs.Coq, "WFalse")
+	return cs, nil
+}
+
+// refClockLiteral: the documented meaning of a clock-dependent ts literal at the instant now (lql/datetime.go, the comment of
+// parseLqlDateTime): -<number>(m|h|d) = that many minutes/hours/days before now; minute / hour / day / week = the start of the
+// current minute / hour / day (00:00 local) / week (Sunday 00:00 local). Case-insensitive, surrounding blanks ignored.
+func refClockLiteral(lit string, now time.Time) (int64, bool) {
+	l := strings.ToLower(strings.Trim(lit, " "))
+	if strings.HasPrefix(l, "-") && len(l) >= 3 {
+		var unit time.Duration
+		switch l[len(l)-1] {
+		case 'm':
+			unit = time.Minute
+		case 'h':
+			unit = time.Hour
+		case 'd':
+			unit = 24 * time.Hour
+		default:
+			return 0, false
+		}
+		v, err := strconv.ParseFloat(l[1:len(l)-1], 64)
+		if err != nil {
+			return 0, false
+		}
+		return now.Add(-time.Duration(v * float64(unit))).UnixNano(), true
+	}
+	y, mo, d := now.Date()
+	h, mi, _ := now.Clock()
+	switch l {
+	case "minute":
+		return time.Date(y, mo, d, h, mi, 0, 0, now.Location()).UnixNano(), true
+	case "hour":
+		return time.Date(y, mo, d, h, 0, 0, 0, now.Location()).UnixNano(), true
+	case "day":
+		return time.Date(y, mo, d, 0, 0, 0, 0, now.Location()).UnixNano(), true
+	case "week":
+		return time.Date(y, mo, d-int(now.Weekday()), 0, 0, 0, 0, now.Location()).UnixNano(), true
+	}
+	return 0, false
+}
+
+func whereCaseT(rp Replay, fixed map[string]int64) (*Case, error) {
 	cs := &Case{Replay: rp, Stream: rp.Stream}
+	tmf := timeFn(parseTime)
+	if fixed != nil {
+		tmf = func(s string) (int64, bool) {
+			if v, ok := fixed[s]; ok {
+				return v, true
+			}
+			return parseTime(s)
+		}
+	}
 	var viol *Violation
 	fail := func(class, detail string) {
 		if viol == nil {
@@ -118,9 +274,16 @@ func whereCase(rp Replay) (*Case, error) {
 	if perr != nil {
 		cs.Coq = GApp("KWhere", GStr(rp.Text), "[]", gEvents(rp.Events), "WParseErr")
 		cs.Tags = []string{"obs:parse-error"}
+		// the text entry point must refuse what the parser refuses
+		if f2, err2 := lql.BuildWhereExpFunc(rp.Text); err2 == nil {
+			cs.Oracle = &Violation{Class: "where-text-entry-differs", Detail: fmt.Sprintf("%q does not parse (%v), BuildWhereExpFunc(text) accepts it (nil func: %v)", rp.Text, perr, f2 == nil)}
+		}
 		return cs, nil
 	}
 	tab, stable := timeTable(exp)
+	if fixed != nil {
+		tab, stable = timeTableFixed(exp, fixed)
+	}
 	if !stable {
 		return nil, nil
 	}
@@ -142,7 +305,7 @@ func whereCase(rp Replay) (*Case, error) {
 			}
 		}
 	}
-	v := classify(exp, parseTime)
+	v := classify(exp, tmf)
 	f, berr := lql.BuildWhereExpFuncByExpression(exp)
 	obs := "WBuildErr"
 	if berr != nil {
@@ -187,7 +350,7 @@ func whereCase(rp Replay) (*Case, error) {
 				nf++
 			}
 			if v.evaluable {
-				if want := evalExpr(exp, parseTime, e); want != b {
+				if want := evalExpr(exp, tmf, e); want != b {
 					fail("where-result-differs", fmt.Sprintf("%q on %+v: closure says %v, the documented meaning is %v", rp.Text, e, b, want))
 				}
 			}
@@ -199,6 +362,27 @@ func whereCase(rp Replay) (*Case, error) {
 		}
 		if np > 0 {
 			cs.Tags = append(cs.Tags, "obs:panic")
+		}
+	}
+	// the text entry point (what a pipe's filter goes through): lql.BuildWhereExpFunc(text) = ParseExpr + build; it must
+	// accept exactly when the expression route does and answer the same on every event
+	if fixed == nil {
+		f2, err2 := lql.BuildWhereExpFunc(rp.Text)
+		switch {
+		case (err2 == nil) != (berr == nil):
+			fail("where-text-entry-differs", fmt.Sprintf("%q: BuildWhereExpFunc(text) says %v, ParseExpr+BuildWhereExpFuncByExpression says %v", rp.Text, err2, berr))
+		case err2 == nil && f2 != nil && f != nil:
+			for _, e := range rp.Events {
+				le, _ := toLE(e)
+				le2, _ := toLE(e)
+				var b1, b2 bool
+				p1 := guarded(func() { b1 = f(&le) })
+				p2 := guarded(func() { b2 = f2(&le2) })
+				if p1 != p2 || b1 != b2 {
+					fail("where-text-entry-differs", fmt.Sprintf("%q on %+v: BuildWhereExpFunc(text) answers %v (panic %v), the expression route %v (panic %v)", rp.Text, e, b2, p2, b1, p1))
+					break
+				}
+			}
 		}
 	}
 	cs.Oracle = viol
@@ -281,6 +465,7 @@ type store struct {
 	parts map[string]string // key of the event list -> partition tags
 	unf   map[string][]int  // partition tags -> the unfiltered result (SELECT FROM {p} without WHERE), as indexes of the written events
 	n     int
+	rpc   bool // events are written through the RPC client (fields as text)
 }
 
 // unfiltered: what SELECT FROM {tags} LIMIT 10000 (no WHERE, no RANGE) returns, as indexes into evs; asked once per partition.
@@ -339,7 +524,24 @@ func (st *store) partition(evs []Ev) (string, error) {
 		}
 		les[i] = le
 	}
-	if err := st.srv.Partitions.Write(context.Background(), tags, &sliceIt{evs: les}, true); err != nil {
+	if st.rpc {
+		// through the RPC client: the fields travel as the text name=value,... and are parsed by the server (field.NewFieldsFromKVString)
+		aevs := make([]*api.LogEvent, len(evs))
+		for i, e := range evs {
+			var kv []string
+			for _, f := range e.Fields {
+				kv = append(kv, f[0]+"="+strconv.Quote(f[1]))
+			}
+			aevs[i] = &api.LogEvent{Timestamp: e.Ts, Message: e.Msg, Fields: strings.Join(kv, ",")}
+		}
+		var wr api.WriteResult
+		if err := st.srv.Client.Write(context.Background(), tags, "", aevs, &wr); err != nil {
+			return "", fmt.Errorf("rpc write: %v", err)
+		}
+		if wr.Err != nil {
+			return "", fmt.Errorf("rpc write: %v", wr.Err)
+		}
+	} else if err := st.srv.Partitions.Write(context.Background(), tags, &sliceIt{evs: les}, true); err != nil {
 		return "", fmt.Errorf("write: %v", err)
 	}
 	if !WaitFor(flushDeadline, func() bool {
@@ -372,7 +574,27 @@ func queryCase(st *store, rp Replay) (*Case, error) {
 		fail("query-unfiltered-not-the-written-events", fmt.Sprintf("SELECT FROM {%s} LIMIT 10000 returns %d events (%v), %d were written and are reported readable", tags, len(unf), unf, len(rp.Events)))
 	}
 	q := "SELECT FROM {" + tags + "} WHERE " + rp.Text + " LIMIT 10000"
+	if len(rp.Range) == 2 {
+		q = fmt.Sprintf("SELECT FROM {%s} RANGE [\"%d\":\"%d\"] WHERE %s LIMIT 10000", tags, rp.Range[0], rp.Range[1], rp.Text)
+	}
 	exp, perr := lql.ParseExpr(rp.Text)
+	tail := 0
+	if rp.Tail > 0 && perr == nil {
+		// backward through the filter iterator: from the tail over k matching events, then forward (k <= number of matching events)
+		if v := classify(exp, parseTime); v.evaluable {
+			m := 0
+			for _, i := range unf {
+				if evalExpr(exp, parseTime, rp.Events[i]) {
+					m++
+				}
+			}
+			tail = rp.Tail
+			if tail > m {
+				tail = m
+			}
+		}
+		// (the backend takes position and offset from the request, not from the statement text)
+	}
 	tab := "[]"
 	evaluable := false
 	if perr == nil {
@@ -397,10 +619,18 @@ func queryCase(st *store, rp Replay) (*Case, error) {
 			}
 		}
 	}
+	stmt := q
+	if tail > 0 {
+		q += fmt.Sprintf(" [request: Pos=tail Offset=-%d]", tail) // for the reports only
+	}
 	var res *api.QueryResult
 	var qerr error
 	if guarded(func() {
-		res, qerr = st.srv.Querier.Query(context.Background(), &api.QueryRequest{Query: q, Limit: 10000})
+		req := &api.QueryRequest{Query: stmt, Limit: 10000}
+		if tail > 0 {
+			req.Pos, req.Offset = "tail", -tail
+		}
+		res, qerr = st.srv.Querier.Query(context.Background(), req)
 	}) {
 		fail("query-panic", q)
 		qerr = fmt.Errorf("panic")
@@ -435,9 +665,15 @@ func queryCase(st *store, rp Replay) (*Case, error) {
 			// expression is true, in that order -- whatever their timestamps are
 			var want []int
 			for _, i := range unf {
+				if len(rp.Range) == 2 && (rp.Events[i].Ts < rp.Range[0] || rp.Events[i].Ts > rp.Range[1]) {
+					continue
+				}
 				if evalExpr(exp, parseTime, rp.Events[i]) {
 					want = append(want, i)
 				}
+			}
+			if tail > 0 {
+				want = want[len(want)-tail:]
 			}
 			if fmt.Sprint(got) != fmt.Sprint(want) {
 				g2, w2 := append([]int{}, got...), append([]int{}, want...)
@@ -498,10 +734,21 @@ func queryCase(st *store, rp Replay) (*Case, error) {
 		}
 	}
 	cs.Coq = GApp("KQuery", GStr(rp.Text), tab, gEvents(rp.Events), ret)
+	switch {
+	case len(rp.Range) == 2:
+		cs.Coq = GApp("KQueryRange", GStr(rp.Text), tab, gEvents(rp.Events), GZ(rp.Range[0]), GZ(rp.Range[1]), ret)
+		cs.Tags = append(cs.Tags, "query:with-range")
+	case tail > 0:
+		cs.Coq = GApp("KQueryTail", GStr(rp.Text), tab, gEvents(rp.Events), GNat(tail), ret)
+		cs.Tags = append(cs.Tags, "query:tail-offset")
+	}
+	if rp.Via == "rpc" {
+		cs.Tags = append(cs.Tags, "query:rpc-written")
+	}
 	if ret == GNone {
-		cs.Tags = []string{"query:error"}
+		cs.Tags = append(cs.Tags, "query:error")
 	} else {
-		cs.Tags = []string{"query:answered"}
+		cs.Tags = append(cs.Tags, "query:answered")
 	}
 	return cs, nil
 }
@@ -627,18 +874,43 @@ func main() {
 				st.srv.Stop()
 			}
 		}()
+		var rst *store
+		getRpcStore := func() (*store, error) {
+			if rst != nil {
+				return rst, nil
+			}
+			srv, err := StartServer(ServerOpts{})
+			if err != nil {
+				return nil, err
+			}
+			rst = &store{srv: srv, parts: map[string]string{}, rpc: true}
+			return rst, nil
+		}
+		defer func() {
+			if rst != nil {
+				rst.srv.Stop()
+			}
+		}()
 		run := func(rp Replay) error {
 			var cs *Case
 			var err error
 			switch rp.Kind {
 			case "where":
-				cs, err = whereCase(rp)
+				if len(rp.RelLits) > 0 {
+					cs, err = relCase(rp)
+				} else {
+					cs, err = whereCase(rp)
+				}
 			case "lex":
 				cs, err = lexCase(rp)
 			case "match":
 				cs, err = matchCase(rp)
 			case "query":
-				s, e := getStore()
+				get := getStore
+				if rp.Via == "rpc" {
+					get = getRpcStore
+				}
+				s, e := get()
 				if e != nil {
 					return e
 				}
@@ -689,6 +961,21 @@ func main() {
 				return err
 			}
 		}
+		// ---- reltime: ts literals that depend on the clock (relative -<n>(m|h|d), constants minute/hour/day/week)
+		nrel := 0
+		for _, rp := range relCases() {
+			if err := run(rp); err != nil {
+				return err
+			}
+			nrel++
+		}
+		// ---- rpc: events written through the RPC client (fields as text), then WHERE over their fields
+		for _, rp := range rpcCases() {
+			if err := run(rp); err != nil {
+				return err
+			}
+		}
+		c.Note("reltime stream", fmt.Sprintf("%d cases over %d clock-dependent literals", nrel, len(relLiterals)))
 		c.Note("reject stream", fmt.Sprintf("%d unevaluable conditions x %d shapes (+%d controls) as where cases, %d of them end to end", len(rejectBad), len(rejectShapes), len(rejectShapes), len(rejQuery)))
 		base := int64(1552307695000000000)
 		// ---- where: structured stream
@@ -784,7 +1071,23 @@ func main() {
 			}
 			g := &gen{r: r, tsPool: tsPool, kinds: map[string]bool{}, edge: r.Chance(1, 8), maxNest: 2, evs: evs}
 			text := g.expr(r.PickInt(0, 1, 2, 3))
-			if err := run(Replay{Kind: "query", Text: text, Events: evs}); err != nil {
+			rp := Replay{Kind: "query", Text: text, Events: evs}
+			switch {
+			case evs[0].Ts > 0 && r.Chance(1, 4):
+				// WHERE together with an explicit RANGE (bounds at stored timestamps +-1): newFIterator with a time range
+				a, b := r.Intn(len(evs)), r.Intn(len(evs))
+				if a > b {
+					a, b = b, a
+				}
+				rp.Range = []int64{evs[a].Ts + int64(r.PickInt(-1, 0, 0, 1)), evs[b].Ts + int64(r.PickInt(-1, 0, 0, 1))}
+				if rp.Range[1] < rp.Range[0] || rp.Range[1] < 0 {
+					rp.Range[1] = rp.Range[0]
+				}
+			case r.Chance(1, 4):
+				// from the tail backward over k matching events
+				rp.Tail = r.PickInt(1, 2, 3, 5, 1000)
+			}
+			if err := run(rp); err != nil {
 				return err
 			}
 		}
